@@ -316,7 +316,9 @@ func execute(c Case, e *env) (*trace, error) {
 		}
 		return n
 	}
+	lastCrashed := false // the latest iteration of the keyper under test ended in a crash
 	runKut := func(round int) {
+		lastCrashed = false
 		pt := rig.Parties[kut]
 		before := pt.Srv.MsgCount()
 		g := group{L1: round}
@@ -426,6 +428,7 @@ func execute(c Case, e *env) (*trace, error) {
 		observe("crash")
 		finish()
 		g.Crashed = true
+		lastCrashed = true
 		tr.groups = append(tr.groups, g)
 		if err := rig.Restart(kut); err != nil {
 			tr.errs = append(tr.errs, "restart: "+err.Error())
@@ -547,6 +550,11 @@ func execute(c Case, e *env) (*trace, error) {
 		if k < 7 {
 			rig.Chain.NextBlock()
 		}
+	}
+	// a crash in the very last iterations: the restarted keyper gets the iterations it lost (the
+	// chain does not move any more), otherwise "did it catch up" would be asked of a dead process
+	for k := 0; k < 4 && lastCrashed; k++ {
+		runKut(maxRounds + 9 + k)
 	}
 	for _, p := range pending {
 		tr.notFired = append(tr.notFired, fmt.Sprintf("%s@%d", p.Kind, p.At))
